@@ -166,6 +166,11 @@ class Path:
     def check(s, extra):
         t0 = time.time()
         r = s.solver.check(extra)
+        if r == z3.unknown:
+            # one retry with a 4x budget (a loaded machine must not turn a decidable query into "inconclusive")
+            s.solver.set('timeout', 4 * s.limits.solver_timeout_ms)
+            r = s.solver.check(extra)
+            s.solver.set('timeout', s.limits.solver_timeout_ms)
         s.solver_s += time.time() - t0; s.queries += 1
         if r == z3.unknown: raise Unsupported('solver returned unknown: ' + s.solver.reason_unknown())
         return r == z3.sat
@@ -502,15 +507,27 @@ ONE1 = z3.BitVecVal(1, 1)
 ZERO1 = z3.BitVecVal(0, 1)
 
 
-def as_cond(v):
-    """symbolic i1 -> z3 Bool"""
-    if z3.is_app_of(v, z3.Z3_OP_ITE):
-        c, t, e = v.children()
-        if z3.is_bv_value(t) and z3.is_bv_value(e):
-            if t.as_long() == 1 and e.as_long() == 0: return c
-            if t.as_long() == 0 and e.as_long() == 1: return z3.Not(c)
+def as_cond(v, depth=0):
+    """symbolic i1 -> z3 Bool, unfolding 1-bit and/or/xor/not/ite into Boolean structure so that the GF(2) layer
+    sees the individual atoms of a compound branch condition"""
+    if z3.is_bv_value(v): return z3.BoolVal(v.as_long() == 1)
+    if depth < 40 and z3.is_app(v):
+        k = v.decl().kind()
+        if k == z3.Z3_OP_ITE:
+            c, t, e = v.children()
+            if z3.is_bv_value(t) and z3.is_bv_value(e):
+                if t.as_long() == 1 and e.as_long() == 0: return c
+                if t.as_long() == 0 and e.as_long() == 1: return z3.Not(c)
+            return z3.If(c, as_cond(t, depth + 1), as_cond(e, depth + 1))
+        if k == z3.Z3_OP_BOR: return z3.Or(*[as_cond(c, depth + 1) for c in v.children()])
+        if k == z3.Z3_OP_BAND: return z3.And(*[as_cond(c, depth + 1) for c in v.children()])
+        if k == z3.Z3_OP_BNOT: return z3.Not(as_cond(v.arg(0), depth + 1))
+        if k == z3.Z3_OP_BXOR:
+            cs = [as_cond(c, depth + 1) for c in v.children()]
+            r = cs[0]
+            for c in cs[1:]: r = z3.Xor(r, c)
+            return r
     return v == ONE1
-
 
 
 def small_domain(e, depth=0):
@@ -528,6 +545,7 @@ def small_domain(e, depth=0):
     if k == z3.Z3_OP_CONCAT:
         return all(small_domain(c, depth + 1) for c in e.children())
     return False
+
 
 # ----------------------------------------------------------------------------- interpreter
 ARITH = ('add', 'sub', 'mul', 'udiv', 'urem', 'sdiv', 'srem')
